@@ -89,6 +89,7 @@ func main() {
 	hashlog := flag.Bool("hashlog", false, "emit one line per run with its event-log hash")
 	replay := flag.String("replay", "", "execute the Program in this file instead of generating")
 	dump := flag.Bool("dump", false, "print the generated programs instead of running them")
+	coldFlag := flag.Bool("cold", false, "the first program of this process runs its concurrent pass before its sequential reference pass")
 	deadline := flag.Duration("deadline", 0, "stop starting new runs after this long")
 	minimize := flag.String("minimize", "", "minimise the violation recorded in this replay file (in place)")
 	raceMin := flag.Bool("racemin", false, "with -minimize: the violation is a race report; candidates run in child processes")
@@ -97,6 +98,7 @@ func main() {
 	permute := flag.Bool("permute", false, "execute the epochs of every program in reverse order")
 	epochKeys := flag.Bool("epochkeys", false, "emit one line per run with the digest of every epoch's results")
 	emitKeys := flag.Bool("emitkeys", false, "with -replay: print the result key of every operation")
+	noCold := flag.Bool("nocold", false, "with -replay: ignore the program's cold flag (sequential pass first)")
 	histCheck := flag.String("histcheck", "", "replay file: execute its program in two fresh processes (epochs in order / reversed) and compare the results of every epoch")
 	flag.Parse()
 	go watchdog(10 * time.Minute)
@@ -164,6 +166,9 @@ func main() {
 			os.Exit(2)
 		}
 		doWarmup(rf.Warmup, *budget)
+		if *noCold {
+			rf.Program.Cold = false
+		}
 		opt := &sim.Options{Budget: *budget, Sites: decimal128.VerifSiteCount, Property: prof.Property, Checks: prof.Checks, Reverse: prof.Reverse, Trace: true, Permute: *permute, KeepKeys: *emitKeys}
 		o := sim.Execute(rf.Program, opt)
 		rl := runLine{Run: rf.Program.Run, Hash: fmt.Sprintf("%016x", o.Hash), Violations: o.Violations}
@@ -205,6 +210,9 @@ func main() {
 		} else {
 			p, g = sim.Generate(prof, *seed, run)
 		}
+		if *coldFlag && i == 0 {
+			p.Cold = true
+		}
 		saveProgress := func() {
 			// the driver reads this file if the race detector kills the process
 			if *progress != "" {
@@ -228,6 +236,18 @@ func main() {
 			opt.Trace = true
 		}
 		o := sim.Execute(p, opt)
+		if p.Cold && *out != "" {
+			// the same program and schedule in two more fresh processes: cold
+			// again, and after a sequential pass; every result must agree
+			tmp := *out + ".coldcand"
+			b, _ := json.Marshal(sim.ReplayFile{Program: p})
+			if os.WriteFile(tmp, b, 0o644) == nil {
+				if op, d, differs, err := histCompare(tmp, *budget); err == nil && differs {
+					o.Violations = append(o.Violations, sim.Violation{Property: prof.Property, Class: sim.VHistory, Op: op, Detail: d})
+				}
+				os.Remove(tmp)
+			}
+		}
 		sum.Runs++
 		sum.LastRun = run
 		sum.Ops += o.Ops
@@ -340,9 +360,20 @@ func main() {
 // processes, once with its epochs in order and once reversed, and compares
 // the results of every operation of every epoch.
 func histCompare(path string, budget uint64) (op string, detail string, differs bool, err error) {
+	// a cold program: concurrent first use of the library against the same
+	// calls, with the same schedule, after a sequential pass over them
+	coldProg := false
+	if data, e := os.ReadFile(path); e == nil {
+		var rf sim.ReplayFile
+		if json.Unmarshal(data, &rf) == nil && rf.Program != nil {
+			coldProg = rf.Program.Cold
+		}
+	}
 	run := func(permute bool) ([][]string, error) {
 		args := []string{"-replay", path, "-emitkeys", "-budget", fmt.Sprint(budget)}
-		if permute {
+		if permute && coldProg {
+			args = append(args, "-nocold")
+		} else if permute {
 			args = append(args, "-permute")
 		}
 		cmd := exec.Command(os.Args[0], args...)
@@ -382,6 +413,9 @@ func histCompare(path string, budget uint64) (op string, detail string, differs 
 				ka, kb := a[ei][i], b[ei][i]
 				if len(f) == 3 && len(g) == 3 {
 					ka, kb = f[2], g[2]
+				}
+				if coldProg {
+					return kind, fmt.Sprintf("epoch %d operation %s: callers that are the first users of the library in their process, running concurrently, get %.160s; the same calls under the same schedule after a sequential pass over them (fresh process) give %.160s", ei, f[0]+" "+kind, ka, kb), true, nil
 				}
 				return kind, fmt.Sprintf("epoch %d operation %s: epochs in program order give %.160s, the same epochs executed in reverse order (fresh process) give %.160s", ei, f[0]+" "+kind, ka, kb), true, nil
 			}
@@ -467,6 +501,31 @@ func doMinimise(path string, race bool, maxTries int, budget uint64) int {
 			lastRace = rr
 			return true
 		}
+		if c.Cold {
+			// the violation needs the library's untouched state: every
+			// candidate runs in a fresh process
+			tmp := path + ".cand"
+			b, _ := json.Marshal(sim.ReplayFile{Program: c})
+			if os.WriteFile(tmp, b, 0o644) != nil {
+				return false
+			}
+			defer os.Remove(tmp)
+			cmd := exec.Command(os.Args[0], "-replay", tmp, "-budget", fmt.Sprint(budget))
+			var ob bytes.Buffer
+			cmd.Stdout = &ob
+			cmd.Run()
+			var l runLine
+			if json.Unmarshal(bytes.TrimSpace(ob.Bytes()), &l) != nil {
+				return false
+			}
+			for i := range l.Violations {
+				if l.Violations[i].Sig() == rf.Signature {
+					last = &l.Violations[i]
+					return true
+				}
+			}
+			return false
+		}
 		opt := &sim.Options{Budget: budget, Sites: decimal128.VerifSiteCount, Property: prof.Property, Checks: prof.Checks, Reverse: prof.Reverse}
 		o := sim.Execute(c, opt)
 		if o.Deadlock {
@@ -504,7 +563,7 @@ func doMinimise(path string, race bool, maxTries int, budget uint64) int {
 	if lastRace != nil {
 		rf.RaceText = lastRace.Text
 	}
-	if !race && !hist {
+	if !race && !hist && !min.Cold {
 		opt := &sim.Options{Budget: budget, Sites: decimal128.VerifSiteCount, Property: prof.Property, Checks: prof.Checks, Reverse: prof.Reverse, Trace: true}
 		o := sim.Execute(min, opt)
 		rf.Trace = o.Trace
